@@ -6,8 +6,7 @@ package lastgersync
 // ---- the PP downloader (C16): every L2 block from the first one requested onwards is scanned for GER events, however
 // far the head has moved between two polls. scanNext is the first block not yet scanned, scanGap records whether a
 // scan ever started beyond it (ghost observers on the two calls the loop makes).
-//@ ghost var scanNext int
-//@ ghost var scanGap bool
+// (scanNext and scanGap are declared with the sync package's contracts)
 
 //@ extern (*github.com/agglayer/aggkit/sync.EVMDownloaderImplementation).WaitForNewBlocks@lastgersync.(*downloaderPP).Download (d, ctx, latestSyncedBlock)
 //@   modifies nothing
